@@ -18,7 +18,18 @@ from ..xfer import FaultFS, Plan
 CONTENTS = dict(CONTENTS, **BULK)
 MD5 = dict(MD5, **BULK_MD5)
 
-D = {"a": "y", "b/c": "z"}
+def _pad_to_d(tree):
+    """Add an empty file under a name chosen so that the directory's digest ends in the hex digit 'd'."""
+    i = 0
+    while True:
+        t = dict(tree, **{f"pad{i}": "e"})
+        if ref.tree_oid({r: MD5[c] for r, c in t.items()})[: -len(".dir")].endswith("d"):
+            return t
+        i += 1
+
+
+# special names: a dot / no-dot pair, a name containing "..", a backslash; and a digest that ends in 'd'
+D = _pad_to_d({"a": "y", "b/c": "z", ".h": "v", "h": "lf", "r..f": "bin", "n\\m": "crlf"})
 E = {"k": "x", "m": "w"}          # shares x with the top-level file f
 PREFIXES = [(), ("d",), ("e", "s")]
 
@@ -169,6 +180,8 @@ def one_exec(iname, placement, fail, order="short-first", enoent=False, variant=
             from dvc_data.index import DataIndex
 
             ckw = {"cache_index": DataIndex.open(w.p("collect.sqlite")), "cache_key": ("push",)}
+        if variant == "unprotected-cache":
+            pass   # (applied after the caches are filled)
         if variant == "local-remote-leftover":
             # an interrupted earlier upload left a truncated, unprotected file under the name of the first object
             k0, o0, d0 = sorted(expanded(entries), key=lambda t: t[1])[0]
@@ -185,6 +198,12 @@ def one_exec(iname, placement, fail, order="short-first", enoent=False, variant=
             if kind == "dir":
                 for c in v.values():
                     put_raw(lab.stores[designated(placement, key, "cache")], MD5[c], CONTENTS[c])
+        if variant == "unprotected-cache":
+            # every cache object is intact but was left writable (copied cache, interrupted add)
+            for c in ("C1", "C2"):
+                for dp, _dn, fns in os.walk(lab.stores[c].path):
+                    for fn in fns:
+                        os.chmod(os.path.join(dp, fn), 0o644)
         idx = lab.make_index(iname, placement, order=order)
         plans = {}
         for r, f in lab.ffs.items():
@@ -372,7 +391,9 @@ def run_case(case):
         some = sorted(reachable(INDEXES["one"][("d",)]))
         specials = [("bulk", SIMPLE, [], "short-first", False, None),
                     ("one", SIMPLE, [], "short-first", False, "local-remote-leftover"),
-                    ("full", SIMPLE, [], "short-first", False, "local-remote-leftover")]
+                    ("full", SIMPLE, [], "short-first", False, "local-remote-leftover"),
+                    ("one", SIMPLE, [], "short-first", False, "unprotected-cache"),
+                    ("full", placement, [], "short-first", False, "unprotected-cache")]
         for fl in ([], [some[0]], [some[-1]], some[:2]):
             specials.append(("one", SIMPLE, fl, "short-first", False, "cache-index"))
             specials.append(("full", placement, fl, "short-first", False, "cache-index"))
